@@ -8,6 +8,64 @@ NOTE_COMMON = ("trusted: Lean 4.33 kernel (axioms propext/Classical.choice/Quot.
                "generated + corpus operations on every run; the Go toolchain; the harness. ")
 
 P = {
+ "C02": dict(
+  text="28 Lean theorems about executable models of the Uint128/Int128 conversion surface and of IEEE binary64 (GoSem/F64.lean, "
+       "floats as data, rounding by exact integer arithmetic): String/parse and unmarshal round trips, FromBigInt exact-or-"
+       "saturates and AsBigInt identities, the five narrowing predicates iff the As* conversion preserves the value, "
+       "FromFloat64 = truncation in range / nearest bound outside / NaN to 0 with no implementation-defined conversion ever "
+       "evaluated, AsFloat64 exact (value and sign) below 2^53. ~500k lines per quick run incl. f64op lines validating the "
+       "float model against the hardware.",
+  note="NOT proved (kept as *_Statement definitions): the full rejection grammar of FromString (a partial theorem is proved), "
+       "AsFloat64's sign and one-ulp bound for values >= 2^53 (compared bit-for-bit with the hardware on every run instead); "
+       "fmt/JSON/YAML/Scan plumbing is an implementation-side identity oracle against math/big (no theorem); 32-bit big.Word "
+       "branches not modelled; math/big and strconv grammar transcribed from go1.24.2.",
+  ref="DESIGN.md section 5 C02"),
+ "C09": dict(
+  text="19 Lean theorems about the executable byte-level model of eval's parser (nextOperator with the e- hack, two-stack "
+       "reduction, function capture, TrimSpace, evaluation with symbolic operators): precedence_table on the regenerated "
+       "operator tables, parse (render e) = tree e for every blank layout (atoms, all binary operators, signs before atoms and "
+       "groups, parentheses), a sign binds its operand only, parse never panics and the scan index strictly increases for EVERY "
+       "byte string, reuse = fresh. Three ties: stateful structural differential against a real Evaluator with symbolic "
+       "functions, tree-walk value oracle with the library's own operators over six real evaluators, whitespace/precedence "
+       "oracle.",
+  note="parse_render for function calls and exponent-literal atoms, and evaluate_no_panic for resolvers returning '$', are kept "
+       "as unproved *_Statement definitions (covered by the differential runs only); operator/function arithmetic is the "
+       "library's own (C03/C04); wrong-arity calls are outside 'well-formed'.",
+  ref="DESIGN.md section 5 C09"),
+ "C13": dict(
+  text="21 Lean theorems about the executable model of tracelog (entry lists with explicit backing-array aliasing, the group/"
+       "needBar/stack walk, sync and buffered delivery) and multilog (fan-out with recovery): format_spec, one_write_per_record, "
+       "stack_lines_follow, derive_isolated (parent and siblings), buffered_never_blocks / drop_only_when_full / "
+       "no_dup_no_tear over every schedule of the bounded FIFO, fanout_each_enabled_once, fanout_nil_iff_all_ok, "
+       "fanout_errors_collected, with_applies_to_all. Derivation trees and scripted children are run against the Go code.",
+  note="the schedule clauses (no interleaving of concurrent records, per-goroutine order, real non-blocking) are NOT proved: "
+       "observed by a -race stress oracle; leaf renderings (%q, RFC3339, Value.String) and stack text are tokens taken from "
+       "stdlib/errs; a stack is printed as lines only from a top-level stack attribute with no group in force (reading, "
+       "Appendix B).",
+  ref="DESIGN.md section 5 C13"),
+ "C14": dict(
+  text="19 Lean theorems over a syscall-level action model of safe.WriteFile/safe.File (createExcl, write chunks per bufio, "
+       "close, rename, unlink) for every initial directory, umask, mode, buffer size, piece list, fault and kill point: "
+       "dest_old_or_new_at_every_prefix, rename_after_all_bytes, failure_clean, commit_result, close_commit_idempotent, "
+       "history_dest_old_or_new for arbitrary File API histories, chunking lemmas. The action model is tied to the code by a "
+       "fixed enumeration of strace runs (syscall sequences, injected errors on every write/close/rename, SIGKILL at every "
+       "syscall) plus in-process API histories with a concurrent reader.",
+  note="assumed: POSIX rename atomicity, page-cache survival after SIGKILL, kernel umask arithmetic, no short writes; name "
+       "validation, the O_EXCL retry loop and a failing unlink are not modelled; if strace is unavailable the trace stream is "
+       "skipped and the evidence says so.",
+  ref="DESIGN.md section 5 C14"),
+ "C16": dict(
+  text="27 Lean theorems about a transition-system model of the limiter tree (Use with six outcomes, tick reset + service loop, "
+       "New, child/root Close, ticker goroutine with lock and done hand-over) for all trees, request streams and interleavings: "
+       "granted_le_cap and granted_le_min_cap_of_chain per period, lastUsed_spec, answer_exactly_once, nil_only_after_charge, "
+       "immediate_errors, FIFO service, close_marks_subtree_and_fails_pending, close_returns (no deadlock; termination under "
+       "explicit fairness hypotheses), held_lock_would_deadlock (non-vacuity). The executable scheduler is proved to take only "
+       "model steps and is run in lock step with real limiters synchronised to observed ticks.",
+  note="Go scheduler/select fairness only as hypotheses; timing-ambiguous bursts are discarded as inconclusive, never failed; "
+       "Close-vs-tick hangs are searched by a child-process stress oracle with deadlines; SetCap is compared but not part of the "
+       "step relation; requests above an ancestor's cap wait until Close (reading, Appendix B); LastUsed is specified for "
+       "limiters still linked into the tree.",
+  ref="DESIGN.md section 5 C16"),
  "C03": dict(
   text="47 Lean theorems about the executable model of f64.Int/f128.Int (raw values with Go's wrap-around): Add/Sub exact, "
        "Mul/Div/Mod = truncated exact result, Trunc/Ceil/Round (halves away from zero, both signs), Abs/Neg/Min/Max/Inc/Dec/"
